@@ -6,7 +6,7 @@ CONSTANTS
     Cfgs <- MCDomCfgs
     Modes = {"batch"}
     MaxBatches = 1
-    MaxPts = 4
+    MaxPts = 5
     MaxStream = 0
     BuggyCache = FALSE
 INVARIANTS
